@@ -313,7 +313,7 @@ def cond_mentions(s, word, ld=None):
         return False
     c = e["cond"]
     fields = {n.get("n") for n in hir.nodes(c, "field")}
-    return word in fields or word in field_roots(ld, c)
+    return word in fields or word in field_roots(ld, c) or (ld is not None and mentions_field(ld, c, word))
 
 
 def mentions_field(ld, e, word, depth=0):
@@ -367,7 +367,7 @@ def rule_a4(F):
             if not isinstance(e, dict) or e.get("k") != "if" or not uses_next(s):
                 return False
             return any(f[0] == "kind" and hir.last(str(hir.result_desc(f[1]) or "")).split("(")[0] == kind
-                       for x in hir.nodes(e["then"], "struct") for f in x["fields"])
+                       for x in hir.walk_expanded(eld, e["then"]) if x.get("k") == "struct" for f in x["fields"])
         idx = order_in(st, [lambda s: kind_stmt(s, "Return"), lambda s: kind_stmt(s, "Context"),
                             lambda s: any(n.get("k") == "loop" for n in hir.walk(s)) and any(c["m"] == "zip" for c in hir.nodes(s, "mcall"))])
         r.inst("entry_block", {"return_ptr": idx[0], "context": idx[1], "parameters": idx[2]})
@@ -431,7 +431,8 @@ def rule_a4(F):
                 st = stmt_list(rw["body"])
                 V = arg_vec(rw["body"])
                 idx = order_in(st, [lambda s: any(c["m"] == "push" and on_vec(c, V) and mentions_field(ild, c["args"][0], "runtime_functions") for c in hir.nodes(s, "mcall")),
-                                    lambda s: any(c["m"] == "extend" and on_vec(c, V) for c in hir.nodes(s, "mcall"))])
+                                    lambda s: any(c["m"] == "extend" and on_vec(c, V) for c in hir.nodes(s, "mcall"))
+                                    or (any(n.get("k") == "loop" for n in hir.walk(s)) and any(c["m"] == "push" and on_vec(c, V) for c in hir.nodes(s, "mcall")))])
                 r.inst("Instruction::CallRuntime", {"fn_pointer": idx[0], "args": idx[1]})
                 if None in idx or not idx[0] < idx[1]:
                     r.bad(ib.path, "CallRuntime argument order", relfile(ib.file), rw["line"], "the trampoline takes the closure pointer first, then the (out pointer and) arguments")
